@@ -546,8 +546,9 @@ def steer_search(res, log, limit=16, s8res=None):
         line = s8res['specs'][d['id']]
         if extra:
             kvs = dict(w.split('=', 1) for w in line.split() if '=' in w)
-            todo.append(('S8 state %s' % d['id'], int(kvs['v']), kvs['stack'], kvs['memo'], extra, line))
+            todo.append(('S8 state %s' % d['id'], int(kvs['v']), kvs['stack'], kvs['memo'], extra, line, None))
     todo.sort(key=lambda t: (len(t[2]), len(t[3])))
+    n_s8 = len(todo)
     for d in res['diffs']:
         m = re.match(r'valid-set impl=(\S*) model=(\S*)', d['what'])
         if not m or d['id'] not in res['specs']:
@@ -562,9 +563,14 @@ def steer_search(res, log, limit=16, s8res=None):
         if step < 1 or step > len(steps):
             continue
         stack, memo = ('-', '-') if step == 1 else (steps[step - 2][6], steps[step - 2][7])
-        todo.append(('S1 case %s step %d' % (d['id'], step), int(re.search(r'\bv=(\d)', line).group(1)), stack, memo, extra, line))
+        # the opcodes emitted before the disagreeing step, as the bytes say (body steps only)
+        hist_ops = [st_[3] for st_ in steps[:step - 1] if st_[1] == 'B']
+        todo.append(('S1 case %s step %d' % (d['id'], step), int(re.search(r'\bv=(\d)', line).group(1)), stack, memo, extra, line,
+                     hist_ops if len(hist_ops) <= 400 else None))
     props, specs, tried, seen = [], {}, 0, set()
-    for (origin, v, stack, memo, extra, line) in todo:
+    # shortest histories first among the S1 disagreements
+    todo = todo[:n_s8] + sorted(todo[n_s8:], key=lambda t: len(t[6]) if t[6] is not None else 10 ** 6)
+    for (origin, v, stack, memo, extra, line, hist_ops) in todo:
         if tried >= limit:
             break
         for x in extra:
@@ -610,7 +616,25 @@ def steer_search(res, log, limit=16, s8res=None):
                 continue
             cands = psteps[-1][2].split(',')
             if x not in cands:
-                continue          # the rebuilt state does not reproduce the disagreement
+                # the state rebuilt from kinds alone does not reproduce the disagreement (it may rest on aliasing between
+                # cells): replay the ORIGINAL opcode history through the hooks instead (same opcodes, same aliasing)
+                if origin.startswith('S1 case') and hist_ops is not None:
+                    tried += 1
+                    fid = 'steer%d' % tried
+                    sline = 'id=%s %s min=%d max=%d path=%s final=%s' % (fid, ' '.join(w for w in line.split() if re.match(r'(v|rate|unsafe|ext|buf|muts)=', w)),
+                                                                       len(hist_ops) + 1, len(hist_ops) + 1, ';'.join(hist_ops) or '-', x)
+                    cp = os.path.join(tmp, 'steer_hist.txt')
+                    open(cp, 'w').write(sline + '\n')
+                    q = subprocess.run([HBIN, 'steer', cp], stdout=subprocess.PIPE, stderr=subprocess.PIPE, text=True, env=ENV, timeout=600)
+                    if 'RESULT ok' in q.stdout:
+                        tp = os.path.join(tmp, 'steer_trace.txt')
+                        open(tp, 'w').write(q.stdout)
+                        out = subprocess.run([DRIVER, 'oracles', tp], stdout=subprocess.PIPE, stderr=subprocess.STDOUT, text=True, env=ENV, timeout=600).stdout
+                        specs[fid] = sline
+                        for pr in parse_verdicts(out)['props']:
+                            pr['detail'] += ' (found by replaying the opcode history of %s through the hooks and then emitting %s, which only the implementation offers there)' % (origin, x)
+                            props.append(pr)
+                continue
             tried += 1
             final = compiled('%02x' % cands.index(x) + '00' * 80)
             fid = 'steer%d' % tried
@@ -623,8 +647,53 @@ def steer_search(res, log, limit=16, s8res=None):
             for pr in pv['props']:
                 pr['detail'] += ' (found by steering the implementation into %s in simulated state stack=%s memo=%s, where the model forbids it; disagreement first seen in %s)' % (x, stack, memo, origin)
                 props.append(pr)
-    if todo:
-        log('steer: %d state(s) where only the implementation offers some opcode, %d rebuilt and steered, %d oracle failure(s)' % (len(todo), tried, len(props)))
+    # the simulated state drifted from what the model computes (sim-state disagreement): the guards then judge a state that
+    # is not the real one.  Replay the opcode history up to and including the drifting step through the hooks and emit, one at
+    # a time, each typed opcode the implementation now offers: its operands are what the bytes say, not what the simulation thinks
+    TYPED = ['STACK_GLOBAL', 'APPEND', 'APPENDS', 'SETITEM', 'SETITEMS', 'ADDITEMS', 'REDUCE', 'NEWOBJ', 'NEWOBJ_EX', 'BUILD', 'OBJ', 'DICT', 'DUP',
+             'TUPLE', 'POP_MARK', 'BINPUT', 'MEMOIZE']
+    drift = []
+    for d in res['diffs']:
+        if not d['what'].startswith('sim-state') or d['id'] not in res['specs'] or len(drift) > 200:
+            continue
+        drift.append((int(d['step'].split('=')[1]), d['id']))
+    ndrift = 0
+    # short histories first, newest protocols first (they have the most typed opcodes), one drift point per (protocol, case)
+    vof = lambda cid: int(re.search(r'\bv=(\d)', res['specs'][cid]).group(1))
+    picked, seen_d = [], set()
+    for step, cid in sorted(drift, key=lambda t: (-vof(t[1]), t[0])):
+        if (vof(cid), cid) in seen_d:
+            continue
+        seen_d.add((vof(cid), cid))
+        picked.append((step, cid))
+    for step, cid in picked[:8]:
+        line = res['specs'][cid]
+        steps = [l.split() for l in _trace_one(line, tmp).splitlines() if l.startswith('STEP ')]
+        if step > len(steps) or step > 400:
+            continue
+        hist_ops = [st_[3] for st_ in steps[:step] if st_[1] == 'B']
+        ndrift += 1
+        for x in TYPED:
+            fid = 'drift%d_%s' % (ndrift, x)
+            sline = 'id=%s %s min=%d max=%d path=%s final=%s' % (fid, ' '.join(w for w in line.split() if re.match(r'(v|rate|unsafe|ext|buf|muts)=', w)),
+                                                               len(hist_ops) + 1, len(hist_ops) + 1, ';'.join(hist_ops) or '-', x)
+            cp = os.path.join(tmp, 'steer_hist.txt')
+            open(cp, 'w').write(sline + '\n')
+            q = subprocess.run([HBIN, 'steer', cp], stdout=subprocess.PIPE, stderr=subprocess.PIPE, text=True, env=ENV, timeout=600)
+            if 'RESULT ok' not in q.stdout:
+                continue
+            tp = os.path.join(tmp, 'steer_trace.txt')
+            open(tp, 'w').write(q.stdout)
+            out = subprocess.run([DRIVER, 'oracles', tp], stdout=subprocess.PIPE, stderr=subprocess.STDOUT, text=True, env=ENV, timeout=600).stdout
+            got = parse_verdicts(out)['props']
+            if got:
+                specs[fid] = sline
+            for pr in got:
+                pr['detail'] += ' (found by replaying the opcode history of case %s up to step %d, where the simulated state drifts from the model, and then emitting %s)' % (cid, step, x)
+                props.append(pr)
+    if todo or drift:
+        log('steer: %d state(s) where only the implementation offers some opcode (%d rebuilt and steered), %d drift point(s) replayed, %d oracle failure(s)' % (
+            len(todo), tried, ndrift, len(props)))
     return props, specs
 
 
